@@ -180,13 +180,14 @@ def run_case(job):
     dim, elem = c["dim"], c["elem"]
     viol = []
     lagr = c.get("path", "elimination") == "lagrange"
-    key = f"{c['phys']}{dim}D/{elem}/{c['law']}/{c['mesh']}/{c['map']}" + (f"/{c['bc']}" if c.get('bc', 'func') != 'func' else '') + ("/lagrange" if lagr else "")
+    key = f"{c['phys']}{dim}D/{elem}/{c['law']}/{c['mesh']}/{c['map']}" + (f"/{c['bc']}" if c.get('bc', 'func') != 'func' else '') + ("/lagrange" if lagr else "") + (f"/unit1e{c['unit']}" if c.get("unit", 0) else "")
     try:
         mesh0 = base_mesh(dim, elem, c["mesh"] == "mixed")
         A = np.array([[f2(q) for q in row] for row in case["A"]])
         A3 = np.eye(3)
         A3[:dim, :dim] = A
-        coords = mesh0.coord @ A3.T + np.array([0.3, -0.2, 0.1 if dim == 3 else 0.0])
+        unit = 10.0 ** c.get("unit", 0)  # unit of length: the same body written in another unit (Pipeline.tla: Units)
+        coords = (mesh0.coord @ A3.T + np.array([0.3, -0.2, 0.1 if dim == 3 else 0.0])) * unit
         mesh = clone_mesh_with_coords(mesh0, coords)
         if c["mesh"] == "renumbered":
             mesh = renumber(mesh, i)
@@ -200,7 +201,7 @@ def run_case(job):
                 mat = make_law(c["law"], dim, c["ps"])
                 sim = Simulations.Elastic(mesh, mat, verbosity=False)
                 G = np.array([[f2(q) for q in row] for row in case["G"]]) * SCALE
-                off = np.array([0.002, -0.001, 0.0015])[:dim]
+                off = np.array([0.002, -0.001, 0.0015])[:dim] * unit
                 unk = ["x", "y", "z"][:dim]
                 funcs = [(lambda x, y, z, k=k: G[k, 0] * x + G[k, 1] * y + (G[k, 2] * z if dim == 3 else 0.0) + off[k]) for k in range(dim)]
                 bn = bnodes if c.get("bc", "func") != "array-permuted" else bnodes[np.random.default_rng(7).permutation(bnodes.size)]
@@ -216,6 +217,7 @@ def run_case(job):
                 mat = Models.Thermal(k=2.0, c=1.0, thickness=0.5)
                 sim = Simulations.Thermal(mesh, mat, verbosity=False)
                 g = np.array([f2(q) for q in case["strain"]])
+                g = g / unit  # the same temperatures at the same material points
                 tf = lambda x, y, z: g[0] * x + g[1] * y + (g[2] * z if dim == 3 else 0.0) + 3.0
                 bn = bnodes if c.get("bc", "func") != "array-permuted" else bnodes[np.random.default_rng(7).permutation(bnodes.size)]
                 sim.add_dirichlet(bn, [tf] if c.get("bc", "func") == "func" else [tf(X[bn, 0], X[bn, 1], X[bn, 2])], ["t"])
@@ -246,14 +248,14 @@ def run_case(job):
                 viol.append((f"stress-constant/{key}", f"{key}: reported stress is not constant over the elements", {"case": case}))
             W = sim.Result("Wdef")
             th = mat.thickness if dim == 2 else 1.0
-            Wexp = 0.5 * float(S_obs[0] @ eps_eng) * f2(case["measure"]) * th
+            Wexp = 0.5 * float(S_obs[0] @ eps_eng) * f2(case["measure"]) * unit**dim * th
             if abs(W - Wexp) > 1e-9 * abs(Wexp) + 1e-18:
                 viol.append((f"energy/{key}", f"{key} (field {c['field']}): Wdef = {W}, 1/2 sigma:eps * measure * thickness = {Wexp}", {"case": case}))
     except Exception as ex:
         import traceback
 
         viol.append((f"raises/{key}", f"{key}: {type(ex).__name__}: {ex} | {traceback.format_exc()[-300:]}", {"case": case}))
-    return {"viol": viol, "n": 1, "keys": [(c["phys"], dim, elem, c["law"], c["ps"], c["mesh"], c["map"], c["field"], c.get("bc"), lagr)], "traces": 1}
+    return {"viol": viol, "n": 1, "keys": [(c["phys"], dim, elem, c["law"], c["ps"], c["mesh"], c["map"], c["field"], c.get("bc"), lagr, c.get("unit", 0))], "traces": 1}
 
 
 def run(ctx):
